@@ -222,6 +222,12 @@ def run_history(hist, acc):
                                 table_op([disturb[1], disturb[2]] + ([False] if disturb[1] == "spawn" else []))
                             nontrivial = True
                             disturb = None
+                            if n == 0:
+                                # the iterator exists but nothing was asked of it yet: the iteration - and its listing -
+                                # begins with the first next(), so what happened up to now is already part of the table
+                                listed = sorted(w.t.procs)
+                                listed_inc = {p: w.cur_inc(p) for p in listed}
+                                acc.count("iterators_created_before_a_table_change_and_consumed_after")
                         if stop_after is not None and n >= stop_after:
                             it.close()
                             break
@@ -834,6 +840,10 @@ def fixed_histories():
                     ["iter", None, None, None], ["iter", None, None, None]])
     out.append([["spawn", 7, False], ["iter", None, None, None], ["vanish", 7], ["iter", None, None, None], ["spawn", 7, False],
                 ["iter", None, None, None]])
+    # the iterator is created, the table changes, and only then is the iterator consumed
+    for what in ("spawn", "vanish", "respawn"):
+        out.append([["spawn", 7, False], ["spawn", 8, False] if what != "spawn" else ["spawn", 9, False], ["iter", None, None, None],
+                    ["iter", None, [0, what, 8], None], ["iter", None, None, None], ["iter", None, None, None]])
     for attrs in ATTRS:
         out.append([["spawn", 7, False], ["spawn", 8, True], ["iter", None, None, attrs]])
     return out
